@@ -1,6 +1,7 @@
 import logging
 import networkx as nx
 import pysmiles
+from pysmiles.read_smiles import _tokenize, TokenType
 from pysmiles.smiles_helper import (_annotate_ez_isomers,
                                     remove_explicit_hydrogens,
                                     add_explicit_hydrogens)
@@ -153,6 +154,15 @@ def read_fragment_smiles(smiles_str,
     if smiles_str == 'H':
         LOGGER.warning("You define an H fragment, which is not valid SMILES. We'll make it [H].")
         smiles_str = '[H]'
+
+    # pysmiles is asked to be lenient and then drops a ring index
+    # that is never closed; here that is an error as in the graph
+    open_rings = set()
+    for tokentype, _, token in _tokenize(smiles_str):
+        if tokentype == TokenType.RING_NUM:
+            open_rings ^= {token}
+    if open_rings:
+        raise SyntaxError("You have a dangling ring index.")
 
     mol_graph = pysmiles.read_smiles(smiles_str,
                                      explicit_hydrogen=True,
